@@ -1163,8 +1163,10 @@ class Image(object):
 
         i = self.asarray()
 
-        if self.mode in (ImageMode.RGB, ImageMode.U8, ImageMode.I16, ImageMode.I32):
+        if self.mode == ImageMode.RGB:
             return False
+        elif self.mode in (ImageMode.U8, ImageMode.I16, ImageMode.I32):
+            return np.all(i == 0)  # zero is the maskval for integer data
         elif self.mode in (ImageMode.F32, ImageMode.F64, ImageMode.F16x3):
             return np.all(np.isnan(i))
         elif self.mode == ImageMode.RGBA:
